@@ -270,7 +270,7 @@ package adt
 //@   ensures old(c.errs) == nil ==> isNumV(result) && fresh(result.(*Num))
 //@   ensures old(c.errs) == nil ==> result.(*Num).K == k
 //@   ensures old(c.errs) == nil ==> result.(*Num).X.ip == old(d.ip) && result.(*Num).X.fp == old(d.fp)
-//@   ensures old(c.errs) == nil ==> result.(*Num).X.Form == old(d.Form) && result.(*Num).X.Negative == old(d.Negative)
+//@   ensures old(c.errs) == nil ==> result.(*Num).X.Form == old(d.Form) && result.(*Num).X.Negative == old(d.Negative) && result.(*Num).X.Exponent == old(d.Exponent) && result.(*Num).X.Coeff.iv == old(d.Coeff.iv)
 //@   ensures old(c.errs) != nil ==> isBottomV(result)
 //@   assigns c.errs
 
@@ -281,13 +281,103 @@ package adt
 // by the decimal context; a zero divisor is an error.
 //@ func numOp
 //@   strings abstract
-//@   callsite fn cases apd.(*Context).Add | apd.(*Context).Sub | apd.(*Context).Mul | apd.(*Context).Quo
-//@   requires funcIs(fn, apd.(*Context).Add, apd.(*Context).Sub, apd.(*Context).Mul, apd.(*Context).Quo)
+//@   callsite fn cases apd.(*Context).Add | apd.(*Context).Sub | apd.(*Context).Mul | internal.(Context).Quo
+//@   requires funcIs(fn, apd.(*Context).Add, apd.(*Context).Sub, apd.(*Context).Mul, internal.(Context).Quo)
 //@   requires c != nil && c.errs == nil && finiteNum(x) && finiteNum(y) && (x.K == IntKind || x.K == FloatKind) && (y.K == IntKind || y.K == FloatKind)
 //@   ensures [nofab] isNumV(result) || isBottomV(result)
 //@   ensures [kind] isNumV(result) ==> result.(*Num).K == ite(x.K == IntKind && y.K == IntKind, IntKind, FloatKind)
 //@   ensures [add] isNumV(result) && funcIs(fn, apd.(*Context).Add) && funcRecv(fn, *apd.Context).Precision == 0 ==> isSum(result.(*Num).X.ip, result.(*Num).X.fp, x.X.ip, x.X.fp, y.X.ip, y.X.fp)
 //@   ensures [sub] isNumV(result) && funcIs(fn, apd.(*Context).Sub) && funcRecv(fn, *apd.Context).Precision == 0 ==> isDiff(result.(*Num).X.ip, result.(*Num).X.fp, x.X.ip, x.X.fp, y.X.ip, y.X.fp)
 //@   ensures [mul] isNumV(result) && funcIs(fn, apd.(*Context).Mul) && funcRecv(fn, *apd.Context).Precision == 0 ==> isIntProd(result.(*Num).X.ip, result.(*Num).X.fp, x.X.ip, x.X.fp, y.X.ip, y.X.fp)
-//@   ensures [divzero] funcIs(fn, apd.(*Context).Quo) && decSign(y.X.ip, y.X.fp) == 0 ==> isBottomV(result)
+//@   ensures [divzero] funcIs(fn, internal.(Context).Quo) && decSign(y.X.ip, y.X.fp) == 0 ==> isBottomV(result)
+//@   assigns c.errs
+
+//@ func exactIntOp
+//@   requires a != nil && b != nil
+//@   ensures result == (a.K == IntKind && b.K == IntKind)
+
+//@ spec func arithPre(c *OpContext, a *Num, b *Num) bool { c != nil && c.errs == nil && finiteNum(a) && finiteNum(b) && (a.K == IntKind || a.K == FloatKind) && (b.K == IntKind || b.K == FloatKind) }
+//@ spec func resKind(a *Num, b *Num) Kind { ite(a.K == IntKind && b.K == IntKind, IntKind, FloatKind) }
+
+// (P) C06: "Results of +, -, * on integers and decimals are mathematically
+// exact": [exactint] is the statement for integer operands, [exact] the strict
+// statement for all operands (fails for floats: known finding F5, the 34-digit
+// decimal precision).
+//@ func (*OpContext).Add
+//@   strings abstract
+//@   requires arithPre(c, a, b)
+//@   ensures [kind] isNumV(result) ==> result.(*Num).K == resKind(a, b)
+//@   ensures [exactint] isNumV(result) && a.K == IntKind && b.K == IntKind ==> isSum(result.(*Num).X.ip, result.(*Num).X.fp, a.X.ip, a.X.fp, b.X.ip, b.X.fp)
+//@   ensures [exact] isNumV(result) ==> isSum(result.(*Num).X.ip, result.(*Num).X.fp, a.X.ip, a.X.fp, b.X.ip, b.X.fp)
+//@   assigns c.errs
+
+//@ func (*OpContext).Sub
+//@   strings abstract
+//@   requires arithPre(c, a, b)
+//@   ensures [kind] isNumV(result) ==> result.(*Num).K == resKind(a, b)
+//@   ensures [exactint] isNumV(result) && a.K == IntKind && b.K == IntKind ==> isDiff(result.(*Num).X.ip, result.(*Num).X.fp, a.X.ip, a.X.fp, b.X.ip, b.X.fp)
+//@   ensures [exact] isNumV(result) ==> isDiff(result.(*Num).X.ip, result.(*Num).X.fp, a.X.ip, a.X.fp, b.X.ip, b.X.fp)
+//@   assigns c.errs
+
+//@ func (*OpContext).Mul
+//@   strings abstract
+//@   requires arithPre(c, a, b)
+//@   ensures [kind] isNumV(result) ==> result.(*Num).K == resKind(a, b)
+//@   ensures [exactint] isNumV(result) && a.K == IntKind && b.K == IntKind ==> isIntProd(result.(*Num).X.ip, result.(*Num).X.fp, a.X.ip, a.X.fp, b.X.ip, b.X.fp)
+//@   assigns c.errs
+
+// "/ ... the result is [a float]; error on a zero divisor"
+//@ func (*OpContext).Quo
+//@   strings abstract
+//@   requires arithPre(c, a, b)
+//@   ensures [kind] isNumV(result) ==> result.(*Num).K == FloatKind
+//@   ensures [divzero] decSign(b.X.ip, b.X.fp) == 0 ==> isBottomV(result)
+//@   assigns c.errs, all Num.K
+
+// ---- C06: integer division builtins ----
+// integer value of the result (exponent 0, sign flag applied to the coefficient)
+//@ spec func intOf(v Value) int { coeffInt(v.(*Num).X) }
+// operands are integers in canonical form (A-int: integer Nums carry a non-positive exponent)
+//@ spec func intArg(n *Num) bool { finiteNum(n) && n.X.fp == 0.0 && n.X.Exponent <= 0 }
+
+// (P) C06: "div/mod and quo/rem satisfy the Euclidean and truncated division
+// identities for all operand signs and error on a zero divisor": the results are
+// the Euclidean quotient/modulus (SMT-LIB div/mod: a == b*div + mod, 0 <= mod < |b|)
+// and Go's truncated / and %.
+//@ func intDivOp
+//@   strings abstract
+//@   callsite fn cases apd.(*BigInt).Div | apd.(*BigInt).Mod | apd.(*BigInt).Quo | apd.(*BigInt).Rem
+//@   requires funcIs(fn, apd.(*BigInt).Div, apd.(*BigInt).Mod, apd.(*BigInt).Quo, apd.(*BigInt).Rem)
+//@   requires c != nil && c.errs == nil && intArg(a) && intArg(b)
+//@   ensures [divzero] b.X.ip == 0 ==> isBottomV(result)
+//@   ensures [isint] b.X.ip != 0 ==> isNumV(result) && result.(*Num).K == IntKind && result.(*Num).X.Coeff.iv >= 0 && result.(*Num).X.Exponent == 0
+//@   ensures [div] b.X.ip != 0 && funcIs(fn, apd.(*BigInt).Div) ==> intOf(result) == ediv(a.X.ip, b.X.ip)
+//@   ensures [mod] b.X.ip != 0 && funcIs(fn, apd.(*BigInt).Mod) ==> intOf(result) == emod(a.X.ip, b.X.ip)
+//@   ensures [quo] b.X.ip != 0 && funcIs(fn, apd.(*BigInt).Quo) ==> intOf(result) == a.X.ip / b.X.ip
+//@   ensures [rem] b.X.ip != 0 && funcIs(fn, apd.(*BigInt).Rem) ==> intOf(result) == a.X.ip % b.X.ip
+//@   assigns c.errs
+
+//@ func (*OpContext).IntDiv
+//@   strings abstract
+//@   requires c != nil && c.errs == nil && intArg(a) && intArg(b)
+//@   ensures b.X.ip == 0 ==> isBottomV(result)
+//@   ensures b.X.ip != 0 ==> isNumV(result) && intOf(result) == ediv(a.X.ip, b.X.ip)
+//@   assigns c.errs
+//@ func (*OpContext).IntMod
+//@   strings abstract
+//@   requires c != nil && c.errs == nil && intArg(a) && intArg(b)
+//@   ensures b.X.ip == 0 ==> isBottomV(result)
+//@   ensures b.X.ip != 0 ==> isNumV(result) && intOf(result) == emod(a.X.ip, b.X.ip)
+//@   assigns c.errs
+//@ func (*OpContext).IntQuo
+//@   strings abstract
+//@   requires c != nil && c.errs == nil && intArg(a) && intArg(b)
+//@   ensures b.X.ip == 0 ==> isBottomV(result)
+//@   ensures b.X.ip != 0 ==> isNumV(result) && intOf(result) == a.X.ip / b.X.ip
+//@   assigns c.errs
+//@ func (*OpContext).IntRem
+//@   strings abstract
+//@   requires c != nil && c.errs == nil && intArg(a) && intArg(b)
+//@   ensures b.X.ip == 0 ==> isBottomV(result)
+//@   ensures b.X.ip != 0 ==> isNumV(result) && intOf(result) == a.X.ip % b.X.ip
 //@   assigns c.errs
